@@ -740,6 +740,39 @@ def r2_8(ctx, rc):
                      'created files to remove them', rb.file, key=key)
     if done < 4:
         raise AnalysisError('rollback undo sets not found')
+    # which build a listing of directories / a membership question refers
+    # to: rollback keeps what the *previous* build had (its directories are
+    # exempt from removal and re-created, its outputs are not deleted); the
+    # new cache contributes only the list of files to delete
+    want = {'created_dirs': 'old', 'created_file': 'old',
+            'created_norm_cased_file': 'old', 'created_files': 'new'}
+    n = 0
+    for call in ctx.prog.calls_in(rb):
+        f = call.func
+        if not (isinstance(f, ast.Attribute) and f.attr in want):
+            continue
+        cns = ctx.H.node_of(rb, call)
+        if not cns:
+            continue
+        roles = ctx.H.expr_roles(f.value, rb, cns[0])
+        if not roles or roles == {'not-a-cache'}:
+            continue                # BuildDirs.created_dirs()
+        n += 1
+        key = 'rollback asks the %s cache for %s' % (want[f.attr], f.attr)
+        if roles == {want[f.attr]}:
+            rc.ok({'call': ast.unparse(call)[:60], 'role': want[f.attr]},
+                  key=key)
+        else:
+            rc.violation(
+                'rollback-role | %s | %s' % (rb.qualname, f.attr),
+                'rollback consults the %s cache for %s() where the %s one '
+                'belongs: the directories exempt from removal / re-created '
+                'and the outputs kept are those of the previous build, the '
+                'files deleted are those of the failed one' % (
+                    '/'.join(sorted(roles)), f.attr, want[f.attr]),
+                ctx.prog.loc(rb, call), key=key)
+    if n < 3:
+        raise AnalysisError('cache listings in rollback not found (%d)' % n)
 
 
 def _slice_names(ctx, func, expr, cn, depth=0, seen=None):
